@@ -335,6 +335,9 @@ func (c *FnCtx) setupSpec(st0 *State) {
 	}
 	if c.spec.loopCount > 0 && len(c.loopOrd) != c.spec.loopCount {
 		c.unsupported("contract %s:%d: the function has %d loops, its `loop <n>` clauses were written for %d (loops were added or removed: the ordinals may designate other loops)", strings.TrimPrefix(c.spec.loopCountLine.file, repoDir+"/"), c.spec.loopCountLine.line, len(c.loopOrd), c.spec.loopCount)
+		// the clauses designated by ordinal would be checked against the wrong loops: drop
+		// them (their obligations are then "not generated", never refuted by accident)
+		c.spec.loops = map[int]*loopSpec{}
 	}
 	// loops designated by a variable name: the innermost loop containing every reference to it
 	for name, ls := range c.spec.loopsByName {
